@@ -65,7 +65,7 @@ PROP = {
     'C12': dict(engines=[], fresh=True, gen=True),
     'C13': dict(engines=[], fresh=False, gen=True),
     'C14': dict(engines=['wire'], fresh=True),
-    'C15': dict(engines=['rt'], fresh=False),
+    'C15': dict(engines=['rt'], fresh=False, stall=90, solo_stall=30),
     'C16': dict(engines=['anyu'], fresh=True),
     'C17': dict(engines=['timep'], fresh=False),
     'C18': dict(engines=['rapidp'], fresh=True),
@@ -635,7 +635,11 @@ def run_shards_isolated(w, binary, engine, prop, shards=NCPU, timeout=3600, stal
             types = json.loads(q.stdout)['types']
             tname = types[pr[0]] if 0 <= pr[0] < len(types) else '?'
             case = pr[1]
-            rep1, crash1 = run_isolated(w, binary, engine, 0, 1, ['-types', '^' + re.escape(tname) + '$', '-arg', 'only=%d' % case], 900, 'solo%d' % i, stall=solo_stall)
+            if engine == 'rt':
+                # the input stream of the runtime engine is per shard: regenerate it in the same shard
+                rep1, crash1 = run_isolated(w, binary, engine, i, shards, ['-arg', 'only=%d' % case], 900, 'solo%d' % i, stall=solo_stall)
+            else:
+                rep1, crash1 = run_isolated(w, binary, engine, 0, 1, ['-types', '^' + re.escape(tname) + '$', '-arg', 'only=%d' % case], 900, 'solo%d' % i, stall=solo_stall)
             if rep1 is None:
                 kind = 'hang' if crash1['timed_out'] else 'fatal'
                 viol.append(dict(prop=prop, key='%s/%s' % (engine, kind), type=tname,
@@ -691,7 +695,7 @@ def check_isolated_engine(prop, tier, seed, repo, keep):
     cfg = PROP[prop]
     with Work(prop, repo, tier, seed, keep) as w:
         bins = w.prepare_harness(fresh=cfg.get('fresh', True))
-        reps, viol, inc = run_shards_isolated(w, bins['plain'], cfg['engines'][0], prop, stall=150, solo_stall=300)
+        reps, viol, inc = run_shards_isolated(w, bins['plain'], cfg['engines'][0], prop, stall=cfg.get('stall', 150), solo_stall=cfg.get('solo_stall', 300))
         merged = merge_reports(reps, prop)
         merged['violations'] += viol
         merged['n_violations'] += len(viol)
@@ -1092,7 +1096,7 @@ CHECKS = {
     'C01': check_engine, 'C02': check_engine, 'C04': check_engine, 'C05': check_engine,
     'C03': check_engine, 'C14': check_engine,
     'C06': check_total, 'C07': check_engine,
-    'C08': check_engine, 'C09': check_engine, 'C10': check_engine, 'C11': check_conc, 'C12': check_gen_total, 'C13': check_gen_determinism, 'C15': check_engine, 'C16': check_engine, 'C17': check_engine, 'C18': check_isolated_engine, 'C19': check_engine,
+    'C08': check_engine, 'C09': check_engine, 'C10': check_engine, 'C11': check_conc, 'C12': check_gen_total, 'C13': check_gen_determinism, 'C15': check_isolated_engine, 'C16': check_engine, 'C17': check_engine, 'C18': check_isolated_engine, 'C19': check_engine,
 }
 
 
